@@ -998,6 +998,19 @@ func (env *Env) call(e *ast.CallExpr) Term {
 			return intT(fmt.Sprintf("(select %s %s)", g.get(env.st, cnt), ch.S))
 		}
 		return Term{fmt.Sprintf("(select %s %s)", g.get(env.st, last), ch.S), g.d.sortOf(ct.Elem()), ct.Elem()}
+	case "ghost":
+		// ghost("name"): a global ghost counter (specification-only state; changed only through modifies ghost("name"))
+		argn(1)
+		{
+			lit, ok := e.Args[0].(*ast.BasicLit)
+			if !ok {
+				cerr("ghost: name must be a string literal")
+			}
+			nm, _ := strconv.Unquote(lit.Value)
+			comp := "GH$" + sanitize(nm)
+			g.compDecl(comp, "Int")
+			return intT(g.get(env.st, comp))
+		}
 	case "sref":
 		// sref(s): the identity of the backing array of slice s (0 for nil); arrays allocated later have larger identities
 		argn(1)
@@ -1219,6 +1232,16 @@ func (g *Gen) modLocs(env *Env, m *Clause) []modLoc {
 			ct := types.Unalias(x.T).Underlying().(*types.Chan)
 			cnt, last := g.chanComps(ct)
 			return []modLoc{{whole: cnt, exceptRef: x.S}, {whole: last, exceptRef: x.S}}
+		}
+		if id, ok := c.Fun.(*ast.Ident); ok && id.Name == "ghost" {
+			lit, ok := c.Args[0].(*ast.BasicLit)
+			if !ok {
+				cerr("ghost: name must be a string literal")
+			}
+			nm, _ := strconv.Unquote(lit.Value)
+			comp := "GH$" + sanitize(nm)
+			g.compDecl(comp, "Int")
+			return []modLoc{{whole: comp}}
 		}
 		if id, ok := c.Fun.(*ast.Ident); ok && id.Name == "mapof" {
 			x := env.tr(c.Args[0])
